@@ -138,7 +138,14 @@ def rsa_keys_topclear() -> list[TestKey]:
 
 
 def ec_keys(curve: str | None = None) -> list[TestKey]:
-    return [k for k in all_keys() if k.kind == "ec" and (curve is None or k.curve == curve)]
+    return [k for k in all_keys() if k.kind == "ec" and not k.raw.get("x04") and (curve is None or k.curve == curve)]
+
+
+def ec_keys_x04(curve: str | None = None) -> list[TestKey]:
+    """EC keys whose X coordinate begins with the octet 0x04 (1 key in 256): the bare RFC 6605 form x || y of such a key
+    starts like a SEC 1 uncompressed point — code that recognises the prefixed form by its first octet instead of by the
+    length of the key misreads it."""
+    return [k for k in all_keys() if k.kind == "ec" and k.raw.get("x04") and (curve is None or k.curve == curve)]
 
 
 def make_zsk(tk: TestKey, alg: int, ident: str, ttl: int = 172800, flags: int = 256) -> Any:
